@@ -248,7 +248,10 @@ func scenarioCase(env *vlib.Env, h int, rep *vlib.Reporter) {
 		Validators: nil}
 	g.Validators = append(g.Validators, smchain.ValUpdate(u.ValKeys[3], 10))
 	nonce := uint64(100)
-	sign := func(s int, m *shmsg.Message, l string) smchain.Tx { nonce++; return u.SignTx(s, nonce, smchain.ChainID, m, l) }
+	sign := func(s int, m *shmsg.Message, l string) smchain.Tx {
+		nonce++
+		return u.SignTx(s, nonce, smchain.ChainID, m, l)
+	}
 	a1 := uint64(3 + r.Intn(5))
 	a2 := a1 + uint64(1+r.Intn(50))
 	c1keys := []common.Address{u.Addrs[A], u.Addrs[O]}
